@@ -1,5 +1,6 @@
-// collsearch finds two distinct 16-byte keys with the same 64-bit digest (FNV-1 / FNV-1a, CRC-64,
-// the leading 8 bytes of MD5 / SHA-1 / SHA-256) by
+// collsearch finds two distinct 16-byte keys with the same 64-bit digest (FNV-1 / FNV-1a, the
+// leading 8 bytes of MD5 / SHA-1 / SHA-256; not CRC-64, which is injective on keys that differ in
+// 8 bytes only) by
 // cycle finding (Brent) on x -> digest(key(x)), key(x) = fixed 8-byte prefix | x big endian: about
 // 2^33 digest evaluations, minutes on one core. The pairs it prints are kept in mc/props/collide.go
 // (collidingWide) and are verified there each time the table is built.
@@ -12,7 +13,6 @@ import (
 	"encoding/binary"
 	"flag"
 	"fmt"
-	"hash/crc64"
 	"os"
 )
 
@@ -74,14 +74,11 @@ func collide(f func(uint64) uint64, x0 uint64) (a, b uint64) {
 }
 
 func main() {
-	kind := flag.String("kind", "fnv1a", "fnv1a | fnv1 | crc64-iso | crc64-ecma | md5-8 | sha1-8 | sha256-8")
+	kind := flag.String("kind", "fnv1a", "fnv1a | fnv1 | md5-8 | sha1-8 | sha256-8")
 	flag.Parse()
-	iso, ecma := crc64.MakeTable(crc64.ISO), crc64.MakeTable(crc64.ECMA)
 	f, ok := map[string]func(uint64) uint64{
 		"fnv1a":      fnv1a,
 		"fnv1":       fnv1,
-		"crc64-iso":  func(x uint64) uint64 { k := key(x); return crc64.Checksum(k[:], iso) },
-		"crc64-ecma": func(x uint64) uint64 { k := key(x); return crc64.Checksum(k[:], ecma) },
 		"md5-8":      func(x uint64) uint64 { k := key(x); s := md5.Sum(k[:]); return binary.BigEndian.Uint64(s[:]) },
 		"sha1-8":     func(x uint64) uint64 { k := key(x); s := sha1.Sum(k[:]); return binary.BigEndian.Uint64(s[:]) },
 		"sha256-8":   func(x uint64) uint64 { k := key(x); s := sha256.Sum256(k[:]); return binary.BigEndian.Uint64(s[:]) },
